@@ -19,6 +19,8 @@ let flat es = List.concat_map (fun e -> List.map int_of_z e) es
 
 let () =
   let cplx = ref false and esz = ref 1 and isfloat = ref false and w = ref empty_world in
+  (* model variant: "repaired" on the command line when MatrixHelper.cpp has resizeOwnerOutOfVectorRep *)
+  let repaired = Array.length Sys.argv > 1 && Sys.argv.(1) = "repaired" in
   let toks line = Array.of_list (List.filter (fun s -> s <> "") (String.split_on_char ' ' line)) in
   let elt_at t from = List.init !esz (fun k -> z_of_int (int_of_string t.(from + k))) in
   let elts_at t from cnt = List.init cnt (fun q -> elt_at t (from + q * !esz)) in
@@ -84,7 +86,7 @@ let () =
         | "resize" -> (WResize (nn 1, nn 2, nn 3, i 4 <> 0, z_of_int (i 5)), i 1)
         | s -> failwith ("unknown op " ^ s) in
       (* a negative index or size is rejected before the model is asked (nat has no negatives) *)
-      let (w', ok) = if !neg then (!w, false) else wstep_total !cplx (nat_of_int !esz) !w op in
+      let (w', ok) = if !neg then (!w, false) else wstep_total !cplx (nat_of_int !esz) repaired !w op in
       w := w';
       report (not ok) (if ok then Some target else None)
     end
